@@ -235,6 +235,12 @@ Proof. intros H l. specialize (H l). unfold cntl in *. cbn. destruct (Nat.eq_dec
 Lemma mono_cons x R R' : mono R R' -> mono (x :: R) (x :: R').
 Proof. intros H l. specialize (H l). unfold cntl in *. cbn. destruct (Nat.eq_dec x l); lia. Qed.
 
+Lemma cntl_cons x R l : cntl (x :: R) l = (if Nat.eq_dec x l then 1 else 0) + cntl R l.
+Proof. unfold cntl. cbn. destruct (Nat.eq_dec x l); lia. Qed.
+Lemma refs_head c lA lE body :
+  refs (SJump None (JC c) lA None :: body ++ [SJump None JU lE None; SLabel lA]) = lA :: refs body ++ [lE].
+Proof. unfold refs. cbn. rewrite flat_map_app. reflexivity. Qed.
+
 Section Site.
   Variable N : binop -> option binop.
   Hypothesis Ninv : forall op op', N op = Some op' -> N op' = Some op.
@@ -442,26 +448,307 @@ Section Site.
         rewrite <- !app_assoc. reflexivity.
       - autorewrite with struct. cbn [app]. rewrite <- !app_assoc. apply sub_app; [apply sub_refl|].
         cbn [app]. apply sub_skip. exact Rsub.
-      - rewrite <- !app_assoc. cbn [refs flat_map refs_s app]. apply mono_skip.
-        unfold refs at 1. rewrite flat_map_app. fold (refs body). cbn [flat_map refs_s app].
-        rewrite <- !app_assoc. apply mono_app; [apply mono_refl|]. cbn [app]. apply mono_skip. exact Rmono.
-      - autorewrite with struct. cbn [app].
-        intros l Hin Hnot. rewrite !map_app in *. cbn [map fst] in *. Show.
-        assert (Hnb : ~ In l (map fst (lenv (real (P src)) body))) by (intros H; apply Hnot, in_or_app; auto).
+      - rewrite refs_head. intros l. specialize (Rmono l). rewrite !cntl_app, cntl_cons in *. rewrite !cntl_app.
+        cbn [cntl count_occ]. lia.
+      - autorewrite with struct. cbn [app]. rewrite refs_head.
+        intros l Hin Hnot. rewrite !map_app, !in_app_iff in Hin, Hnot. cbn [map fst In] in Hin.
         assert (Hnr : ~ In l (map fst (chain_cat adv lenv (fun _ _ _ => []) (fun _ => []) (is_none eb) (P (S dA)) t ++
                                           match eb with None => [] | Some b => lenv (chain_adv adv (is_none eb) (P (S dA)) t) b end)))
-          by (intros H; apply Hnot, in_or_app; right; rewrite <- map_app; exact H).
-        cbn [refs flat_map refs_s app]. unfold refs at 1. rewrite flat_map_app. fold (refs body). cbn [flat_map refs_s app].
-        rewrite <- !app_assoc. cbn [app].
-        change (refs body ++ lE :: flat_map refs_s rest) with (refs body ++ [lE] ++ refs rest).
-        unfold cntl. cbn [count_occ]. fold (cntl (refs body ++ [lE] ++ refs rest) l).
-        fold (cntl (refs body ++ flat_map (fun cb => refs (snd cb)) t ++ match eb with None => [] | Some b => refs b end) l).
-        rewrite !cntl_app. specialize (Rmono l). rewrite cntl_app in Rmono.
-        apply in_app_or in Hin as [Hin|Hin]; [contradiction|].
-        cbn [In app] in Hin. destruct Hin as [Heq|Hin].
+          by (rewrite map_app, in_app_iff; tauto).
+        specialize (Rmono l). rewrite !cntl_app, cntl_cons in *. rewrite !cntl_app. cbn [cntl count_occ].
+        destruct Hin as [[Hin|[Heq|[]]]|Hin]; [tauto| |].
         + subst l. destruct (Nat.eq_dec lA lA); [|congruence]. split; [exact Hrc|]. lia.
-        + rewrite <- map_app in Hin. destruct (Rdrops l Hin Hnr) as (Hr & Hc). rewrite cntl_app in Hc.
+        + destruct (Rdrops l Hin Hnr) as (Hr & Hc). rewrite !cntl_app in Hc.
           split; [exact Hr|]. destruct (Nat.eq_dec lA l); lia.
+    Qed.
+
+    Lemma shape_site src cbs els : shape src cbs els -> site_ok src cbs els.
+    Proof.
+      induction 1 as [src c nc HX Hlt Hneg | src c nc lA dA HX Hlt HJ HL Hneg Hrc Hle
+                     | src c nc lA dA rest els HX Hlt HJ HL Hneg Hrc Hsh IH].
+      - apply (site_last src c nc); auto.
+      - unfold site_ok. cbn [map mkelse].
+        assert (Hrest : slice blk (S dA) (S e) = slice blk (S dA) e ++ [SLabel lE]).
+        { rewrite (slice_split blk (S dA) e (S e)) by lia. now rewrite (slice_one _ _ _ Hend). }
+        assert (Hb : SNo :: slice blk (S dA) e ++ [nth e blk SNo; SNo] = SNo :: slice blk (S dA) (S e) ++ [SNo]).
+        { rewrite (nth_nth_error _ _ _ Hend), Hrest, <- app_assoc. reflexivity. }
+        rewrite Hb.
+        apply (site_head src c nc lA dA [] _ HX Hlt HJ HL Hneg Hrc Hle); try reflexivity.
+        + unfold ch_adv. cbn [chain_adv]. rewrite bookend_adv. rewrite <- P_end. symmetry. apply P_slice. lia.
+        + unfold ch_sem. cbn [chain_cat chain_adv is_none app]. now rewrite bookend_sem.
+        + unfold ch_lenv. cbn [chain_cat chain_adv is_none app]. rewrite bookend_lenv. apply sub_refl.
+        + unfold ch_refs, blocks_refs. cbn [flat_map app]. rewrite bookend_refs. apply mono_refl.
+        + unfold ch_lenv, ch_refs. cbn [chain_cat chain_adv is_none app]. rewrite bookend_lenv. intros l H1 H2. contradiction.
+      - unfold site_ok in *. cbn [map].
+        destruct IH as (Ia & Is & Isub & Im & Id).
+        assert (Hle : S dA <= e) by (apply shape_lt in Hsh; lia).
+        apply (site_head src c nc lA dA _ _ HX Hlt HJ HL Hneg Hrc Hle); auto.
+        apply shape_nonempty in Hsh. destruct rest; [congruence|reflexivity].
     Qed.
   End Shape.
 End Site.
+
+(* ------------------------------------------------------------------------------------------ *)
+(* what _gather_cond_chain returns has the shape above *)
+
+Section Gather.
+  Variable N : binop -> option binop.
+  Variable rc : nat -> nat.
+  Variable G : guards.
+  Variable blk : list stmt.
+  Hypothesis Gdiff : g_diff G = true.
+  Hypothesis Giftime : g_if_time G = true.
+  Hypothesis Gifdir : g_if_dir G = true.
+  Hypothesis Gifrc : g_if_rc G = true.
+  Hypothesis Guntime : g_un_time G = true.
+  Hypothesis Gunkind : g_un_kind G = true.
+  Hypothesis Gundir : g_un_dir G = true.
+  Hypothesis Gendsame : g_end_same G = true.
+  Hypothesis Gendlast : g_end_last G = true.
+  Hypothesis Gelse : g_else_order G = true.
+
+  Let ji := block_ji G rc blk.
+
+  Lemma block_ji_spec i j : ji i = Some j ->
+    exists l, nth_error blk i = Some (SJump None (j_kind j) l (j_time j)) /\
+              nth_error blk (j_dest j) = Some (SLabel l) /\ j_rc j = rc l.
+  Proof.
+    unfold ji, block_ji. destruct (nth_error blk i) as [s|] eqn:Hi; [|discriminate].
+    unfold jmp_of. destruct s as [| | | | | d k l t | | |]; try discriminate.
+    rewrite Gdiff. destruct d as [d|]; [discriminate|]. cbn.
+    destruct (label_index blk l) as [dest|] eqn:Hl; [|discriminate].
+    intros H; inversion H; subst j; cbn. exists l. repeat split; auto. now apply label_index_spec.
+  Qed.
+
+  Lemma gather_shape : forall fuel src known acc info,
+    gather N G fuel ji src known acc = Some info ->
+    exists lE cbs,
+      nth_error blk (ci_end info) = Some (SLabel lE) /\
+      ci_chain info = acc ++ cbs /\
+      shape N rc blk (ci_end info) lE src cbs (ci_else info) /\
+      (forall e0, known = Some e0 -> ci_end info = e0).
+  Proof.
+    induction fuel as [|fuel IH]; intros src known acc info H; [discriminate|].
+    cbn [gather] in H.
+    destruct (ji src) as [ifj|] eqn:Hif; [|discriminate].
+    rewrite Giftime, Gifdir in H. cbn [andb] in H.
+    destruct (j_time ifj) as [tm|] eqn:Htm; [discriminate|]. cbn [is_none negb] in H.
+    destruct (src <? j_dest ifj) eqn:Hdir; [|discriminate]. cbn [negb] in H. apply Nat.ltb_lt in Hdir.
+    destruct (j_kind ifj) as [|c] eqn:Hk; [discriminate|].
+    destruct (g_if_cnt G && match c with CCnt _ _ _ => true | _ => false end); [discriminate|].
+    destruct (neg_cond N c) as [nc|] eqn:Hneg; [|discriminate].
+    destruct (block_ji_spec _ _ Hif) as (lA & HX & HL & Hrc). rewrite Hk, Htm in HX.
+    set (dA := j_dest ifj) in *.
+    set (cb := {| cb_cond := nc; cb_if := src; cb_label := dA |}) in *.
+    destruct (if Nat.eqb src (dA - 1) then None else ji (dA - 1)) as [uj|] eqn:Hun.
+    - (* there is a jump to the end before the label *)
+      assert (Hsrc : src <> dA - 1 /\ ji (dA - 1) = Some uj).
+      { destruct (Nat.eqb src (dA - 1)) eqn:Heq; [discriminate|]. apply Nat.eqb_neq in Heq. auto. }
+      destruct Hsrc as (Hsrc & Huj).
+      rewrite Gifrc, Guntime, Gunkind, Gundir, Gendsame, Gelse in H. cbn [andb] in H.
+      destruct (1 <? j_rc ifj) eqn:Hrc1; [discriminate|]. apply Nat.ltb_ge in Hrc1.
+      destruct (j_time uj) as [tu|] eqn:Htu; [discriminate|]. cbn [is_none negb] in H.
+      destruct (j_kind uj) as [|cu] eqn:Hku; [|discriminate].
+      destruct (dA - 1 <? j_dest uj) eqn:Hudir; [|discriminate]. cbn [negb] in H. apply Nat.ltb_lt in Hudir.
+      destruct (block_ji_spec _ _ Huj) as (lE & HJ & HLE & _). rewrite Hku, Htu in HJ.
+      set (e := match known with Some e => e | None => j_dest uj end) in *.
+      destruct (Nat.eqb e (j_dest uj)) eqn:He; [|discriminate]. cbn [negb] in H. apply Nat.eqb_eq in He.
+      assert (Hlt : S src < dA) by lia.
+      assert (Hrc' : rc lA <= 1) by (rewrite <- Hrc; exact Hrc1).
+      assert (Hknown : forall e0, known = Some e0 -> e = e0) by (intros e0 ->; reflexivity).
+      replace (dA + 1) with (S dA) in H by lia.
+      assert (Helse : (if e <? S dA then None
+                       else Some {| ci_chain := acc ++ [cb]; ci_else := Some (S dA); ci_end := e |}) = Some info ->
+                      exists lE cbs, nth_error blk (ci_end info) = Some (SLabel lE) /\ ci_chain info = acc ++ cbs /\
+                                     shape N rc blk (ci_end info) lE src cbs (ci_else info) /\
+                                     (forall e0, known = Some e0 -> ci_end info = e0)).
+      { destruct (e <? S dA) eqn:Hord; [discriminate|]. apply Nat.ltb_ge in Hord.
+        intros Hi; inversion Hi; subst info; cbn [ci_end ci_chain ci_else].
+        exists lE, [cb]. rewrite He. split; [exact HLE|]. split; [reflexivity|]. split.
+        - apply (sh_else N rc blk (j_dest uj) lE src c nc lA dA); auto. lia.
+        - intros e0 Hk0. rewrite <- He. auto. }
+      destruct (ji (S dA)) as [[d2 r2 t2 [|c2]]|] eqn:Hnext; try (apply Helse; exact H).
+      (* else if *)
+      apply IH in H as (lE' & cbs' & Hend' & Hchain & Hshape & Hke).
+      specialize (Hke e eq_refl).
+      assert (lE' = lE) by (rewrite Hke, He, HLE in Hend'; now inversion Hend'). subst lE'.
+      exists lE, (cb :: cbs'). split; [exact Hend'|]. split; [|split].
+      + rewrite Hchain, <- app_assoc. reflexivity.
+      + apply (sh_elif N rc blk (ci_end info) lE src c nc lA dA cbs' (ci_else info)); auto.
+      + intros e0 Hk0. rewrite Hke. auto.
+    - (* no else: this was the last block *)
+      rewrite Gendlast in H. cbn [andb] in H.
+      assert (Hres : ci_end info = dA /\ ci_chain info = acc ++ [cb] /\ ci_else info = None /\
+                     (forall e0, known = Some e0 -> dA = e0)).
+      { destruct known as [e0|].
+        - destruct (Nat.eqb dA e0) eqn:He; [|discriminate]. apply Nat.eqb_eq in He. cbn [negb] in H.
+          inversion H; subst info; cbn. repeat split; auto. intros e1 Hk1; inversion Hk1; subst; auto.
+        - inversion H; subst info; cbn. repeat split; auto. discriminate. }
+      destruct Hres as (He & Hc & Hel & Hk0).
+      exists lA, [cb]. rewrite He, Hel. split; [exact HL|]. split; [exact Hc|]. split.
+      + apply (sh_last N rc blk dA lA src c nc); auto.
+      + exact Hk0.
+  Qed.
+End Gather.
+
+(* ------------------------------------------------------------------------------------------ *)
+(* the scan of one block, the recursion into inner blocks, the whole pass *)
+
+Lemma skipn_cons_nth {A} (l : list A) i x : nth_error l i = Some x -> skipn i l = x :: skipn (S i) l.
+Proof.
+  revert i; induction l as [|y t IH]; intros [|i] H; cbn in *; try discriminate.
+  - now inversion H.
+  - now apply IH.
+Qed.
+
+Section Pass.
+  Variable N : binop -> option binop.
+  Hypothesis Ninv : forall op op', N op = Some op' -> N op' = Some op.
+  Variable E : env.
+  Variable rc : nat -> nat.
+  Variable G : guards.
+  Hypothesis Gdiff : g_diff G = true.
+  Hypothesis Giftime : g_if_time G = true.
+  Hypothesis Gifdir : g_if_dir G = true.
+  Hypothesis Gifrc : g_if_rc G = true.
+  Hypothesis Guntime : g_un_time G = true.
+  Hypothesis Gunkind : g_un_kind G = true.
+  Hypothesis Gundir : g_un_dir G = true.
+  Hypothesis Gendsame : g_end_same G = true.
+  Hypothesis Gendlast : g_end_last G = true.
+  Hypothesis Gelse : g_else_order G = true.
+
+  Notation irel' := (irel N E rc).
+
+  Lemma site_irel blk sB brk (Hcons : consistent E sB blk) e lE src cbs els :
+    nth_error blk e = Some (SLabel lE) -> shape N rc blk e lE src cbs els ->
+    irel' brk (P blk sB src) (slice blk src (S e)) [SChain (map (mkb blk e) cbs) (mkelse blk e els)].
+  Proof.
+    intros Hend Hsh.
+    destruct (shape_site N Ninv E rc blk sB brk Hcons e lE Hend src cbs els Hsh) as (Ha & Hs & Hsub & Hm & Hd).
+    assert (Hlt : src < e) by (eapply shape_lt; eauto).
+    assert (Hadv : adv (P blk sB src) (slice blk src (S e)) = P blk sB e).
+    { rewrite <- (P_slice blk sB src (S e)) by lia. eapply P_end; eauto. }
+    set (bs := map (mkb blk e) cbs) in *. set (eb := mkelse blk e els) in *.
+    assert (Hce : chain_end (P blk sB src) bs eb = P blk sB e) by exact Ha.
+    split; [split; [|split; [split|]]|split].
+    - autorewrite with struct. rewrite adv_s_chain, Hce. now rewrite Hadv.
+    - autorewrite with struct. rewrite lenv_s_chain. exact Hsub.
+    - intros l s _ [].
+    - autorewrite with struct. rewrite sem_s_chain, Hce. exact Hs.
+    - change (refs [SChain bs eb]) with (refs_s (SChain bs eb) ++ []). rewrite app_nil_r. exact Hm.
+    - change (refs [SChain bs eb]) with (refs_s (SChain bs eb) ++ []). rewrite app_nil_r.
+      autorewrite with struct. rewrite lenv_s_chain. exact Hd.
+  Qed.
+
+  Lemma gather_checked_gather fuel ji intrs start info :
+    gather_checked N G fuel ji intrs start = Some info -> gather N G fuel ji start None [] = Some info.
+  Proof.
+    unfold gather_checked. destruct (gather N G fuel ji start None []) as [i0|]; [|discriminate].
+    destruct (g_chain_intr G && _); [discriminate|]. auto.
+  Qed.
+
+  Lemma scan_irel blk sB brk (Hcons : consistent E sB blk) : forall fuel index, index <= length blk ->
+    irel' brk (P blk sB index) (skipn index blk)
+          (ifelse_scan N G fuel blk (block_ji G rc blk) (intr_indices blk) index).
+  Proof.
+    induction fuel as [|fuel IH]; intros index Hle; cbn [ifelse_scan]; [apply irel_refl|].
+    destruct (length blk <=? index) eqn:Hlen.
+    - apply Nat.leb_le in Hlen. rewrite skipn_all2 by lia. apply irel_refl.
+    - apply Nat.leb_gt in Hlen.
+      destruct (nth_error blk index) as [x|] eqn:Hx; [|apply nth_error_None in Hx; lia].
+      assert (HPS : P blk sB (S index) = adv_s (P blk sB index) x).
+      { rewrite (P_slice blk sB index (S index)) by lia. rewrite (slice_one _ _ _ Hx). now autorewrite with struct. }
+      destruct (gather_checked N G (length blk) (block_ji G rc blk) (intr_indices blk) index) as [info|] eqn:Hg.
+      + apply gather_checked_gather in Hg.
+        destruct (gather_shape N rc G blk Gdiff Giftime Gifdir Gifrc Guntime Gunkind Gundir Gendsame Gendlast Gelse
+                    _ _ _ _ _ Hg) as (lE & cbs & Hend & Hchain & Hsh & _).
+        cbn [app] in Hchain.
+        assert (Hlt : index < ci_end info) by (eapply shape_lt; eauto).
+        assert (He : ci_end info < length blk) by (apply nth_error_Some; congruence).
+        rewrite (skipn_slice blk index (S (ci_end info))) by lia.
+        change (build_chain blk info :: ?t) with ([build_chain blk info] ++ t).
+        rewrite build_chain_eq, Hchain.
+        apply irel_app.
+        * eapply site_irel; eauto.
+        * rewrite <- (P_slice blk sB index (S (ci_end info))) by lia. apply IH. lia.
+      + rewrite (skipn_cons_nth _ _ _ Hx), (nth_nth_error _ _ _ Hx).
+        apply irel_cons; [apply isrel_refl|]. rewrite <- HPS. apply IH. lia.
+  Qed.
+
+  Definition rec_s (fuel : nat) (s : stmt) : stmt :=
+    match s with
+    | SLoop k b => SLoop k (ifelse_block N G fuel rc b)
+    | SChain bs els =>
+        SChain (map (fun cb => (fst cb, ifelse_block N G fuel rc (snd cb))) bs)
+               (match els with None => None | Some b => Some (ifelse_block N G fuel rc b) end)
+    | _ => s
+    end.
+
+  Lemma ifelse_block_S fuel blk :
+    ifelse_block N G (S fuel) rc blk =
+    map (rec_s fuel) (ifelse_scan N G (S (length blk)) blk (block_ji G rc blk) (intr_indices blk) 0).
+  Proof. reflexivity. Qed.
+
+  Lemma rec_irel fuel :
+    (forall blk st brk, consistent E st blk -> irel' brk st blk (ifelse_block N G fuel rc blk)) ->
+    forall b st brk, consistent E st b -> irel' brk st b (map (rec_s fuel) b).
+  Proof.
+    intros IH. induction b as [|x t IHt]; intros st brk Hc; cbn [map]; [apply irel_refl|].
+    apply consistent_cons in Hc as [Hcx Hct].
+    apply irel_cons; [|apply IHt; exact Hct].
+    destruct x; try apply isrel_refl.
+    - (* loop *) cbn [rec_s]. apply isrel_loop. apply IH. exact Hcx.
+    - (* chain *) cbn [rec_s]. apply consistent_s_chain in Hcx as [Hall Hels].
+      apply isrel_chain.
+      + apply chain_rel_map with (P := consistent E) (F := ifelse_block N G fuel rc); auto.
+        rewrite Forall_forall. intros cb _ st' Hc'. apply IH. exact Hc'.
+      + destruct els as [b|]; auto.
+  Qed.
+
+  Theorem ifelse_block_irel : forall fuel blk st brk,
+    consistent E st blk -> irel' brk st blk (ifelse_block N G fuel rc blk).
+  Proof.
+    induction fuel as [|fuel IH]; intros blk st brk Hc; [apply irel_refl|].
+    rewrite ifelse_block_S.
+    pose proof (scan_irel blk st brk Hc (S (length blk)) 0 (Nat.le_0_l _)) as Hscan.
+    change (P blk st 0) with st in Hscan. change (skipn 0 blk) with blk in Hscan.
+    eapply irel_trans; [exact Hscan|].
+    apply rec_irel; auto.
+    destruct Hscan as ((_ & (Hsub & _) & _) & _). eapply consistent_sub; eauto.
+  Qed.
+End Pass.
+
+Theorem ifelse_pass_canon N G p :
+  (forall op op', N op = Some op' -> N op' = Some op) ->
+  g_diff G = true -> g_if_time G = true -> g_if_dir G = true -> g_if_rc G = true -> g_un_time G = true ->
+  g_un_kind G = true -> g_un_dir G = true -> g_end_same G = true -> g_end_last G = true -> g_else_order G = true ->
+  well_labelled p ->
+  let p' := ifelse_pass N G p in
+  well_labelled p' /\ canon_of N true p' = canon_of N true p /\
+  (forall l, In l (refs p') -> lookup (lenv st0 p') l = lookup (lenv st0 p) l) /\
+  (forall l, In l (refs p') -> In l (refs p)).
+Proof.
+  intros Ninv G1 G2 G3 G4 G5 G6 G7 G8 G9 G10 Hwl p'.
+  pose proof (ifelse_block_irel N Ninv (lookup (lenv st0 p)) (refcount p) G G1 G2 G3 G4 G5 G6 G7 G8 G9 G10
+                (S (size p)) p st0 None (well_labelled_consistent p Hwl)) as Hrel.
+  fold (ifelse_pass N G p) in Hrel. fold p' in Hrel.
+  destruct Hrel as ((Ha & (Hsub & _) & Hsem) & Hm & Hd).
+  assert (Hwl' : well_labelled p') by (unfold well_labelled; eapply sub_NoDup; [|exact Hwl]; now apply sub_map).
+  assert (Hsame : forall l, In l (refs p') -> lookup (lenv st0 p') l = lookup (lenv st0 p) l).
+  { intros l Hl. destruct (lookup (lenv st0 p) l) as [s|] eqn:HL.
+    - apply lookup_some_in in HL as Hin.
+      destruct (in_dec Nat.eq_dec l (map fst (lenv st0 p'))) as [Hdef|Hndef].
+      + apply lookup_defined in Hdef as (s' & Hs'). rewrite Hs'. f_equal.
+        apply lookup_some_in in Hs'. eapply sub_in in Hs'; [|exact Hsub].
+        apply (lookup_In _ _ _ Hwl) in Hs'. congruence.
+      + exfalso. assert (Hin' : In l (map fst (lenv st0 p))) by (change l with (fst (l, s)); now apply in_map).
+        destruct (Hd l Hin' Hndef) as (Hrc & Hc). unfold refcount in Hrc. fold (cntl (refs p) l) in Hrc.
+        apply (count_occ_In Nat.eq_dec) in Hl. unfold cntl in *. lia.
+    - destruct (lookup (lenv st0 p') l) as [s'|] eqn:HL'; auto.
+      apply lookup_some_in in HL'. eapply sub_in in HL'; [|exact Hsub].
+      apply lookup_none in HL. exfalso. apply HL. change l with (fst (l, s')). now apply in_map. }
+  repeat split; auto.
+  - unfold canon_of. rewrite <- Hsem. apply sem_env_ext. exact Hsame.
+  - intros l Hl. eapply mono_in; eauto.
+Qed.
